@@ -454,6 +454,7 @@ def run_c03(tier: str, seed: int) -> int:
 def run_c04(tier: str, seed: int) -> int:
     C.use_repo()
     import sansldap
+    import sansldap._messages as M
 
     rep = C.Report("C04", tier, seed)
     wd = C.workdir("C04")
@@ -506,6 +507,36 @@ def run_c04(tier: str, seed: int) -> int:
                     except Exception as ex:  # noqa: BLE001
                         rep.violation(f"ReceiveChunkedAccepts/{sig_of(m)}/{type(ex).__name__}", f"{what} cut at octet {p_}: LDAPServer.receive raised {type(ex).__name__}: {ex}", {"case": cs, "cut": p_})
                         break
+        # the value of the paged-results control is BER of its own (SEQUENCE { size, cookie }): the same freedoms apply INSIDE it
+        n_inner = 0
+        for size, cookie in ((0, b""), (5, b"ck"), (2**31 - 1, bytes(130))):
+            for lf_outer in (0, 3):
+                for lf_inner in (0, 1, 3):
+                    for tr in (b"", b"\x85\x01x", b"\xc7\x01A", b"\xa5\x00", b"\x85\x01x\x04\x01y"):
+                        def L_(n: int, form: int) -> bytes:
+                            if form == 0 and n < 128:
+                                return bytes([n])
+                            k = 4 if form == 3 else max(1, (n.bit_length() + 7) // 8)
+                            return bytes([0x80 | k]) + n.to_bytes(k, "big")
+
+                        def T_(tag: int, c: bytes, form: int) -> bytes:
+                            return bytes([tag]) + L_(len(c), form) + c
+
+                        ic = size.to_bytes((size.bit_length() + 8) // 8 or 1, "big")
+                        inner = T_(0x30, T_(2, ic, lf_inner) + T_(4, cookie, lf_inner) + tr, lf_inner)
+                        ctl = T_(0x30, T_(4, b"1.2.840.113556.1.4.319", 0) + T_(1, b"\xff", 0) + T_(4, inner, lf_outer), lf_outer)
+                        enc = T_(0x30, T_(2, b"\x07", 0) + T_(0x77, T_(0x80, b"1.2.3", 0), 0) + T_(0xA0, ctl, lf_outer), lf_outer)
+                        want = proj.to_abstract(M.ExtendedRequest(7, [sansldap.PagedResultControl(True, size, cookie)], "1.2.3", None))
+                        n_inner += 1
+                        rep.case(("paged-inner", size, lf_outer, lf_inner, tr))
+                        what = f"ExtendedRequest with a paged-results control whose value uses length form {lf_inner} and trailing element {tr.hex() or 'none'} inside"
+                        try:
+                            dec, rest = unpack_one(enc)
+                            if proj.to_abstract(dec) != want or rest:
+                                rep.violation("SameValue/pagedValue", f"{what} decodes to a different value", {"enc": enc.hex()})
+                        except Exception as ex:  # noqa: BLE001
+                            rep.violation(f"Accepts/pagedValue/{type(ex).__name__}", f"{what} is rejected: {type(ex).__name__}: {ex}", {"enc": enc.hex()})
+        rep.add_part("encoding freedoms inside the paged-results control value (hand-built, 90 cases)", cases=n_inner)
         rep.add_part("spec->code replay of alternative encodings (unpack_ldap_message; requests also through LDAPServer.receive)", cases=len(alt), via_session=n_sess, via_session_in_two_chunks=n_cut)
         for cs in alt[:2] + alt[-1:]:
             rep.sample({"mi": cs["mi"], "op": cs["m"]["op"], "xd": cs["xd"], "choices": cs["ch"], "enc_hex": bytes(cs["enc"]).hex()[:160]})
